@@ -10,57 +10,98 @@ open MdkVerif MdkVerif.Store
 
 /-! ## shapes -/
 
-theorem follows_done {σ ρ : Type} (r : ρ) (l : List Lock) : (Prog.done r : Prog σ ρ).follows l := by
-  cases l <;> simp [Prog.follows]
+theorem follows_done {σ ρ : Type} (r : ρ) (h : List Lock) (l : List (List Lock)) : (Prog.done r : Prog σ ρ).follows h l := by
+  simp [Prog.follows]
 
-theorem follows_atomic {σ ρ : Type} (lk : Lock) (f : σ → σ × ρ) (l : List Lock) : (Prog.atomic lk f).follows (lk :: l) := by
-  refine ⟨rfl, ?_⟩; intro s; exact follows_done _ _
+theorem follows_atomic {σ ρ : Type} (lk : Lock) (f : σ → σ × ρ) (h : List Lock) (l : List (List Lock)) :
+    (Prog.atomic lk f).follows h ((h ++ [lk]) :: l) := by
+  refine ⟨rfl, ?_⟩; intro s; exact follows_done _ _ _
 
-theorem follows_whole (lk : Lock) (op : Op) : (whole lk op).follows [lk] := follows_atomic _ _ _
+theorem follows_whole (lk : Lock) (op : Op) : (whole lk op).follows [] [[lk]] := follows_atomic _ _ _ _
 
 theorem follows_cta {σ ρ : Type} (lk1 lk2 : Lock) (chk : σ → Bool) (err : ρ) (act : σ → σ × ρ) :
-    (Prog.cta lk1 lk2 chk err act).follows [lk1, lk2] := by
+    (Prog.cta lk1 lk2 chk err act).follows [] [[lk1], [lk2]] := by
   refine ⟨rfl, ?_⟩
   intro s
   by_cases h : chk s = true
-  · simp only [h, if_true]; exact follows_atomic _ _ _
+  · simp only [h, if_true]; exact follows_atomic _ _ _ _
   · have h' : chk s = false := by simpa using h
-    simp only [h']; first | exact follows_done _ _ | trivial
+    simp only [h']; first | exact follows_done _ _ _ | trivial
+
+/-- a nested operation: the outer lock alone, then the inner lock with the outer one held -/
+theorem follows_nested {ι σ ρ β : Type} (K : NestOps ι σ ρ β) (i : ι) :
+    (K.nested i).follows [] [[(K.S, 1)], [(K.S, 1), K.lkI i]] := by
+  refine ⟨rfl, ?_⟩
+  intro s
+  cases h : K.early i (K.L.get s) with
+  | some r => simp only [h]; exact follows_done _ _ _
+  | none =>
+    simp only [h]
+    refine ⟨rfl, ?_⟩
+    intro s1 s2
+    exact follows_done _ _ _
+
+/-- the CURRENT source has one of the two known shapes for the two memory methods that use both
+    locks (anything else: the tie is broken and this no longer checks) -/
+theorem mem_snapshot_shape_cases :
+    (shapeOf .mem 27 = some shapeNested.1 ∧ shapeOf .mem 28 = some shapeNested.2) ∨
+    (shapeOf .mem 27 = some shapeTwoSections.1 ∧ shapeOf .mem 28 = some shapeTwoSections.2) := by
+  decide
+
+theorem memSnapNested_of_nested (h27 : shapeOf .mem 27 = some shapeNested.1) (h28 : shapeOf .mem 28 = some shapeNested.2) :
+    memSnapNested = true := by
+  simp [memSnapNested, h27, h28]
+
+theorem memSnapNested_of_two (h27 : shapeOf .mem 27 = some shapeTwoSections.1) : memSnapNested = false := by
+  have : (some shapeTwoSections.1 == some shapeNested.1) = false := by decide
+  simp [memSnapNested, h27, this]
 
 theorem lockProg_follows_shape' (b : Backend) (op : Op) (m : Nat) (h : methodOf op = some m) :
-    ∃ l, shapeOf b m = some l ∧ (lockProg b op).follows l := by
+    ∃ l, shapeOf b m = some l ∧ (lockProg b op).follows [] l := by
   cases b
   · -- memory
     cases op <;> simp only [methodOf, Option.some.injEq, reduceCtorEq] at h <;> subst h
     case snapCreate g n ts =>
-      refine ⟨[lkInnerR, lkSnapsW], by rfl, rfl, ?_⟩
-      intro s; exact follows_atomic _ _ _
+      rcases mem_snapshot_shape_cases with ⟨h27, h28⟩ | ⟨h27, h28⟩
+      · refine ⟨_, h27, ?_⟩
+        simp only [lockProg, memProg, memProgWith, memSnapNested_of_nested h27 h28, if_true]
+        exact follows_nested memNest _
+      · refine ⟨_, h27, ?_⟩
+        simp only [lockProg, memProg, memProgWith, memSnapNested_of_two h27, Bool.false_eq_true, if_false]
+        refine ⟨rfl, ?_⟩
+        intro s; exact follows_atomic _ _ _ _
     case snapRollback g n =>
-      refine ⟨[lkSnapsW, lkInnerW], by rfl, rfl, ?_⟩
-      intro s
-      cases hf : findSnap s g n with
-      | none => simp only [hf]; first | exact follows_done _ _ | trivial
-      | some p => simp only [hf]; exact follows_atomic _ _ _
-    case snapRelease g n => exact ⟨[lkSnapsW], by rfl, follows_whole _ _⟩
-    case snapList g => exact ⟨[lkSnapsR], by rfl, follows_whole _ _⟩
-    case snapPrune t => exact ⟨[lkSnapsW], by rfl, follows_whole _ _⟩
+      rcases mem_snapshot_shape_cases with ⟨h27, h28⟩ | ⟨h27, h28⟩
+      · refine ⟨_, h28, ?_⟩
+        simp only [lockProg, memProg, memProgWith, memSnapNested_of_nested h27 h28, if_true]
+        exact follows_nested memNest _
+      · refine ⟨_, h28, ?_⟩
+        simp only [lockProg, memProg, memProgWith, memSnapNested_of_two h27, Bool.false_eq_true, if_false]
+        refine ⟨rfl, ?_⟩
+        intro s
+        cases hf : findSnap s g n with
+        | none => simp only [hf]; first | exact follows_done _ _ _ | trivial
+        | some p => simp only [hf]; exact follows_atomic _ _ _ _
+    case snapRelease g n => exact ⟨[[lkSnapsW]], by rfl, follows_whole _ _⟩
+    case snapList g => exact ⟨[[lkSnapsR]], by rfl, follows_whole _ _⟩
+    case snapPrune t => exact ⟨[[lkSnapsW]], by rfl, follows_whole _ _⟩
     all_goals first
-      | exact ⟨[lkInnerR], by rfl, follows_whole _ _⟩
-      | exact ⟨[lkInnerW], by rfl, follows_whole _ _⟩
+      | exact ⟨[[lkInnerR]], by rfl, follows_whole _ _⟩
+      | exact ⟨[[lkInnerW]], by rfl, follows_whole _ _⟩
   · -- sqlite
     cases op <;> simp only [methodOf, Option.some.injEq, reduceCtorEq] at h <;> subst h
     case messages g l o so =>
-      refine ⟨[lkConn, lkConn], by rfl, ?_⟩
+      refine ⟨[[lkConn], [lkConn]], by rfl, ?_⟩
       simp only [lockProg, sqlProg]
       split
-      · exact follows_done _ _
+      · exact follows_done _ _ _
       · exact follows_cta _ _ _ _ _
-    case lastMessage g so => exact ⟨[lkConn, lkConn], by rfl, follows_cta _ _ _ _ _⟩
-    case relays g => exact ⟨[lkConn, lkConn], by rfl, follows_cta _ _ _ _ _⟩
-    case replaceRelays g rs => exact ⟨[lkConn, lkConn], by rfl, follows_cta _ _ _ _ _⟩
-    case getSecret g e => exact ⟨[lkConn, lkConn], by rfl, follows_cta _ _ _ _ _⟩
-    case saveSecret g e v => exact ⟨[lkConn, lkConn], by rfl, follows_cta _ _ _ _ _⟩
-    all_goals exact ⟨[lkConn], by rfl, follows_whole _ _⟩
+    case lastMessage g so => exact ⟨[[lkConn], [lkConn]], by rfl, follows_cta _ _ _ _ _⟩
+    case relays g => exact ⟨[[lkConn], [lkConn]], by rfl, follows_cta _ _ _ _ _⟩
+    case replaceRelays g rs => exact ⟨[[lkConn], [lkConn]], by rfl, follows_cta _ _ _ _ _⟩
+    case getSecret g e => exact ⟨[[lkConn], [lkConn]], by rfl, follows_cta _ _ _ _ _⟩
+    case saveSecret g e v => exact ⟨[[lkConn], [lkConn]], by rfl, follows_cta _ _ _ _ _⟩
+    all_goals exact ⟨[[lkConn]], by rfl, follows_whole _ _⟩
 
 /-! ## read sections are pure -/
 
@@ -82,30 +123,49 @@ theorem readsPure_cta {σ ρ : Type} (lk1 : Lock) (l2 : Nat) (chk : σ → Bool)
   · have h' : chk s = false := by simpa using h
     simp only [h']; first | exact follows_done _ _ | trivial
 
-theorem lockProg_readsPure' (b : Backend) (op : Op) : (lockProg b op).readsPure := by
-  cases b
-  · cases op
-    case snapCreate g n ts =>
-      refine ⟨fun _ _ => rfl, ?_⟩
+theorem readsPure_nested_mem (op : Op) (h : memNest.is op = true) : (memNest.nested op).readsPure := by
+  refine ⟨fun h0 => absurd h0 (by decide), ?_⟩
+  intro s
+  cases he : memNest.early op (memNest.L.get s) with
+  | some r => simp only [he]; trivial
+  | none =>
+    simp only [he]
+    refine ⟨?_, fun s1 s2 => trivial⟩
+    cases op <;> simp [memNest] at h
+    case snapCreate g n ts => intro _ s'; rfl
+    case snapRollback g n => intro h0; simp [memNest, lkInnerW] at h0
+
+theorem memProgWith_readsPure (nb : Bool) (op : Op) : (memProgWith nb op).readsPure := by
+  cases op
+  case snapCreate g n ts =>
+    cases nb
+    · refine ⟨fun _ _ => rfl, ?_⟩
       intro s; exact readsPure_atomic_w _ _
-    case snapRollback g n =>
-      refine ⟨fun h => absurd h (by decide), ?_⟩
+    · exact readsPure_nested_mem _ rfl
+  case snapRollback g n =>
+    cases nb
+    · refine ⟨fun h => absurd h (by decide), ?_⟩
       intro s
       cases hf : findSnap s g n with
-      | none => simp only [hf]; first | exact follows_done _ _ | trivial
+      | none => simp only [hf]; first | exact follows_done _ _ _ | trivial
       | some p => simp only [hf]; exact readsPure_atomic_w _ _
-    case updLast g c p i =>
-      refine ⟨fun _ _ => rfl, ?_⟩
-      intro s
-      cases hf : findGroup s g with
-      | none => simp only [hf]; first | exact follows_done _ _ | trivial
-      | some p => simp only [hf]; exact readsPure_atomic_w _ _
-    case snapList g => exact readsPure_atomic_r _ _ (fun s => rfl)
-    case snapRelease g n => exact readsPure_atomic_w _ _
-    case snapPrune t => exact readsPure_atomic_w _ _
-    all_goals first
-      | exact readsPure_atomic_w _ _
-      | exact readsPure_atomic_r _ _ (fun s => rfl)
+    · exact readsPure_nested_mem _ rfl
+  case updLast g c p i =>
+    refine ⟨fun _ _ => rfl, ?_⟩
+    intro s
+    cases hf : findGroup s g with
+    | none => simp only [hf]; first | exact follows_done _ _ _ | trivial
+    | some p => simp only [hf]; exact readsPure_atomic_w _ _
+  case snapList g => exact readsPure_atomic_r _ _ (fun s => rfl)
+  case snapRelease g n => exact readsPure_atomic_w _ _
+  case snapPrune t => exact readsPure_atomic_w _ _
+  all_goals first
+    | exact readsPure_atomic_w _ _
+    | exact readsPure_atomic_r _ _ (fun s => rfl)
+
+theorem lockProg_readsPure' (b : Backend) (op : Op) : (lockProg b op).readsPure := by
+  cases b
+  · exact memProgWith_readsPure _ op
   · cases op
     case messages g l o so =>
       simp only [lockProg, sqlProg]
@@ -121,7 +181,7 @@ theorem lockProg_readsPure' (b : Backend) (op : Op) : (lockProg b op).readsPure 
       refine ⟨fun h => absurd h (by decide), ?_⟩
       intro s
       cases hf : findGroup s g with
-      | none => simp only [hf]; first | exact follows_done _ _ | trivial
+      | none => simp only [hf]; first | exact follows_done _ _ _ | trivial
       | some p => simp only [hf]; exact readsPure_atomic_w _ _
     all_goals exact readsPure_atomic_w _ _
 
@@ -147,35 +207,60 @@ theorem findSnap_key (s : Store) (gid name : Nat) (p : Snap) (h : findSnap s gid
   simp only [Bool.and_eq_true, beq_iff_eq] at this
   exact this
 
-theorem mem_rollback_run (s : Store) (hb : s.backend = .mem) (gid name : Nat) :
-    (memProg (.snapRollback gid name)).run s = Store.step s (.snapRollback gid name) := by
-  simp only [memProg, Prog.run, Store.step, snapRollback]
-  have hfs : findSnap { s with snaps := dropSnap gid name s.snaps } gid name = none ∨ True := Or.inr trivial
-  cases hf : findSnap s gid name with
-  | none =>
-    simp only [Prog.run, okErr]
-    rw [dropSnap_of_not_found s gid name hf]
-  | some p =>
-    obtain ⟨hg, hn⟩ := findSnap_key s gid name p hf
-    simp only [run_atomic, okErr]
-    subst hg; subst hn
-    simp [restoreInner, restoreFrom, hb, findGroup]
+theorem lookSnap_eq (s : Store) (gid name : Nat) : lookSnap s.snaps gid name = findSnap s gid name := rfl
+
+theorem mem_rollback_run (nb : Bool) (s : Store) (hb : s.backend = .mem) (gid name : Nat) :
+    (memProgWith nb (.snapRollback gid name)).run s = Store.step s (.snapRollback gid name) := by
+  cases nb
+  · simp only [memProgWith, Bool.false_eq_true, if_false, Prog.run, Store.step, snapRollback]
+    cases hf : findSnap s gid name with
+    | none =>
+      simp only [Prog.run, okErr]
+      rw [dropSnap_of_not_found s gid name hf]
+    | some p =>
+      obtain ⟨hg, hn⟩ := findSnap_key s gid name p hf
+      simp only [run_atomic, okErr]
+      subst hg; subst hn
+      simp [restoreInner, restoreFrom, hb, findGroup]
+  · simp only [memProgWith, if_true, NestOps.nested, Prog.run, Store.step, snapRollback]
+    cases hf : findSnap s gid name with
+    | none =>
+      have hf' := hf
+      simp only [findSnap] at hf'
+      simp only [memNest, snapsLens, lookSnap, hf', Prog.run, okErr]
+      rw [dropSnap_of_not_found s gid name hf]
+    | some p =>
+      obtain ⟨hg, hn⟩ := findSnap_key s gid name p hf
+      have hf' := hf
+      simp only [findSnap] at hf'
+      simp only [memNest, snapsLens, lookSnap, hf', NestOps.inner, NestOps.tail, Prog.run, okErr]
+      subst hg; subst hn
+      simp [restoreInner, restoreFrom, hb, findGroup]
+
+theorem memProgWith_run (nb : Bool) (op : Op) (s : Store) (hb : s.backend = .mem) :
+    (memProgWith nb op).run s = Store.step s op := by
+  cases op
+  case snapCreate g n ts =>
+    cases nb
+    · simp [memProgWith, Prog.run, run_atomic, Store.step, snapCreate, hb, okErr]
+    · rcases s with ⟨bk, gs, bn, rl, sc, ms, pm, wl, pw, ml, sn⟩
+      simp only at hb
+      subst hb
+      simp [memProgWith, NestOps.nested, NestOps.inner, NestOps.tail, memNest, snapsLens, Prog.run, Store.step, snapCreate, okErr]
+  case snapRollback g n => exact mem_rollback_run nb s hb g n
+  case updLast g c p i =>
+    simp only [memProgWith, Prog.run, Store.step, updLastOp]
+    cases findGroup s g with
+    | none => simp [Prog.run]
+    | some gr =>
+      simp only [run_atomic]
+      cases saveGroup s (updLast gr (c, p, i)) <;> rfl
+  all_goals exact run_whole _ _ _
 
 theorem lockProg_run (b : Backend) (op : Op) (s : Store) (hb : s.backend = b) :
     (lockProg b op).run s = Store.step s op := by
   cases b
-  · cases op
-    case snapCreate g n ts =>
-      simp [lockProg, memProg, Prog.run, run_atomic, Store.step, snapCreate, hb, okErr]
-    case snapRollback g n => exact mem_rollback_run s hb g n
-    case updLast g c p i =>
-      simp only [lockProg, memProg, Prog.run, Store.step, updLastOp]
-      cases findGroup s g with
-      | none => simp [Prog.run]
-      | some gr =>
-        simp only [run_atomic]
-        cases saveGroup s (updLast gr (c, p, i)) <;> rfl
-    all_goals exact run_whole _ _ _
+  · exact memProgWith_run _ op s hb
   · cases op
     case messages g l o so =>
       simp only [lockProg, sqlProg]
